@@ -1,11 +1,419 @@
-// Package c12: correspondence ops for C12 (stub, not yet built).
+// Package c12: label-requirement algebra — real pkg/scheduling Requirement(s) vs the Lean model and the
+// Kubernetes node-selector specification.
 package c12
 
 import (
+	"encoding/json"
+	"fmt"
+	"math/rand/v2"
+	"sort"
+	"strconv"
+	"strings"
+
+	v1 "sigs.k8s.io/karpenter/pkg/apis/v1"
+	"sigs.k8s.io/karpenter/pkg/scheduling"
+
 	"verifharness/internal/core"
 	"verifharness/internal/registry"
+	rg "verifharness/internal/reqgen"
 )
 
 func init() { registry.Register("C12", Ops) }
 
-func Ops() []*core.Op { return nil }
+// ---------- c12.new ----------
+
+type NewIn struct {
+	Key       string   `json:"key"`
+	Op        string   `json:"op"`
+	Values    []string `json:"values"`
+	MinValues *int     `json:"minValues"`
+	Probes    []string `json:"probes"`
+}
+
+var keys = []string{"team", "example.com/tier", "topology.kubernetes.io/zone", "failure-domain.beta.kubernetes.io/zone", "beta.kubernetes.io/arch", "karpenter.sh/capacity-type"}
+
+func mkNewIn(key string, e rg.Expr) NewIn {
+	return NewIn{Key: key, Op: e.Op, Values: e.Values, MinValues: e.MinValues, Probes: rg.Probes([]rg.Expr{e})}
+}
+
+func implNew(raw json.RawMessage) (any, error) {
+	var in NewIn
+	if err := json.Unmarshal(raw, &in); err != nil {
+		return nil, err
+	}
+	r := rg.New(in.Key, rg.Expr{Op: in.Op, Values: in.Values, MinValues: in.MinValues})
+	has := make([]bool, len(in.Probes))
+	for i, p := range in.Probes {
+		has[i] = r.Has(p)
+	}
+	return map[string]any{"snap": rg.SnapOf(r), "operator": opName(string(r.Operator())), "len": r.Len(), "has": has}, nil
+}
+
+func opName(s string) string { return s }
+
+// ---------- c12.pair ----------
+
+type PairIn struct {
+	Key    string    `json:"key"`
+	A      []rg.Expr `json:"a"`
+	B      []rg.Expr `json:"b"`
+	Probes []string  `json:"probes"`
+}
+
+func implPair(raw json.RawMessage) (any, error) {
+	var in PairIn
+	if err := json.Unmarshal(raw, &in); err != nil {
+		return nil, err
+	}
+	a := rg.Build(in.Key, in.A)
+	b := rg.Build(in.Key, in.B)
+	ab := a.Intersection(b)
+	ba := b.Intersection(a)
+	row := func(r *scheduling.Requirement) []bool {
+		out := make([]bool, len(in.Probes))
+		for i, p := range in.Probes {
+			out[i] = r.Has(p)
+		}
+		return out
+	}
+	return map[string]any{
+		"a": rg.SnapOf(a), "b": rg.SnapOf(b), "ab": rg.SnapOf(ab), "ba": rg.SnapOf(ba),
+		"overlapAB": a.HasIntersection(b), "overlapBA": b.HasIntersection(a),
+		"hasA": row(a), "hasB": row(b), "hasAB": row(ab), "hasBA": row(ba),
+		"lenAB": ab.Len(), "opAB": string(ab.Operator()),
+	}, nil
+}
+
+func genExprs(r *rand.Rand, malformed bool) []rg.Expr {
+	n := 1 + r.IntN(3)
+	es := make([]rg.Expr, n)
+	for i := range es {
+		es[i] = rg.RandExpr(r, malformed)
+	}
+	return es
+}
+
+func genPair(r *rand.Rand, t core.Tier) any {
+	malformed := r.Float64() < 0.12
+	a, b := genExprs(r, malformed), genExprs(r, malformed)
+	return PairIn{Key: keys[r.IntN(len(keys))], A: a, B: b, Probes: rg.Probes(a, b)}
+}
+
+// ---------- c12.compat ----------
+
+type KeyExprs struct {
+	Key   string    `json:"key"`
+	Exprs []rg.Expr `json:"exprs"`
+}
+
+type CompatIn struct {
+	A              []KeyExprs `json:"a"`
+	B              []KeyExprs `json:"b"`
+	AllowWellKnown bool       `json:"allowWellKnown"`
+}
+
+var compatKeys = []string{"team", "example.com/tier", "k3", "topology.kubernetes.io/zone", "node.kubernetes.io/instance-type", "karpenter.sh/capacity-type", "kubernetes.io/hostname", "failure-domain.beta.kubernetes.io/zone"}
+
+func buildReqs(l []KeyExprs) scheduling.Requirements {
+	R := scheduling.NewRequirements()
+	for _, ke := range l {
+		for _, e := range ke.Exprs {
+			R.Add(rg.New(ke.Key, e))
+		}
+	}
+	return R
+}
+
+func genReqs(r *rand.Rand) []KeyExprs {
+	n := r.IntN(4)
+	perm := r.Perm(len(compatKeys))
+	out := make([]KeyExprs, 0, n)
+	for i := 0; i < n; i++ {
+		k := compatKeys[perm[i]]
+		m := 1 + r.IntN(2)
+		es := make([]rg.Expr, m)
+		for j := range es {
+			es[j] = rg.RandExpr(r, false)
+		}
+		out = append(out, KeyExprs{Key: k, Exprs: es})
+	}
+	return out
+}
+
+func genCompat(r *rand.Rand, t core.Tier) any {
+	in := CompatIn{A: genReqs(r), B: genReqs(r), AllowWellKnown: r.Float64() < 0.6}
+	// make shared keys likely
+	if len(in.A) > 0 && len(in.B) > 0 && r.Float64() < 0.6 {
+		in.B[0].Key = in.A[0].Key
+		// avoid duplicate keys within B after the overwrite (normalised aliases collapse too; Add intersects them, which is fine)
+	}
+	return in
+}
+
+func implCompat(raw json.RawMessage) (any, error) {
+	var in CompatIn
+	if err := json.Unmarshal(raw, &in); err != nil {
+		return nil, err
+	}
+	A, B := buildReqs(in.A), buildReqs(in.B)
+	var err error
+	if in.AllowWellKnown {
+		err = A.Compatible(B, scheduling.AllowUndefinedWellKnownLabels)
+	} else {
+		err = A.Compatible(B)
+	}
+	return map[string]any{"compatible": err == nil, "intersects": A.Intersects(B) == nil}, nil
+}
+
+// ---------- c12.atoi ----------
+
+type AtoiIn struct {
+	Strings []string `json:"strings"`
+}
+
+func genAtoi(r *rand.Rand, t core.Tier) any {
+	n := 20
+	ss := make([]string, 0, n)
+	alphabet := []string{"0", "1", "9", "-", "+", "_", " ", "a", "x", ".", "5", "7"}
+	for i := 0; i < n; i++ {
+		switch x := r.Float64(); {
+		case x < 0.3:
+			ss = append(ss, rg.WideUniverse[r.IntN(len(rg.WideUniverse))])
+		case x < 0.6:
+			l := r.IntN(6)
+			var b strings.Builder
+			for j := 0; j < l; j++ {
+				b.WriteString(alphabet[r.IntN(len(alphabet))])
+			}
+			ss = append(ss, b.String())
+		case x < 0.8:
+			// around the int64 edges, with padding
+			base := []string{"9223372036854775807", "9223372036854775808", "9223372036854775806", "-9223372036854775808", "-9223372036854775809", "18446744073709551616", "99999999999999999999"}[r.IntN(7)]
+			if r.Float64() < 0.4 {
+				if base[0] == '-' {
+					base = "-000" + base[1:]
+				} else {
+					base = "000" + base
+				}
+			}
+			ss = append(ss, base)
+		default:
+			ss = append(ss, strconv.Itoa(r.IntN(1<<30)-(1<<29)))
+		}
+	}
+	return AtoiIn{Strings: ss}
+}
+
+func implAtoi(raw json.RawMessage) (any, error) {
+	var in AtoiIn
+	if err := json.Unmarshal(raw, &in); err != nil {
+		return nil, err
+	}
+	out := make([]map[string]any, len(in.Strings))
+	for i, s := range in.Strings {
+		v, err := strconv.Atoi(s)
+		out[i] = map[string]any{"v": v, "ok": err == nil}
+	}
+	return out, nil
+}
+
+// ---------- registration ----------
+
+func sig(ess ...[]rg.Expr) string {
+	set := map[string]bool{}
+	for _, es := range ess {
+		for _, f := range rg.Features(es) {
+			if strings.HasPrefix(f, "op:") || f == "exclusions+bound" {
+				set[f] = true
+			}
+		}
+	}
+	var l []string
+	for k := range set {
+		l = append(l, k)
+	}
+	sort.Strings(l)
+	return strings.Join(l, ",")
+}
+
+func Ops() []*core.Op {
+	singles := rg.SingleExprs()
+	return []*core.Op{
+		{
+			Name: "c12.new",
+			Doc:  "scheduling.NewRequirementWithFlexibility for every operator/operand: snapshot, Operator(), Len(), Has() over probes; spec = Kubernetes operator semantics",
+			N:    func(t core.Tier) int { return map[core.Tier]int{core.Quick: 1500, core.Thorough: 30000}[t] },
+			Gen: func(r *rand.Rand, t core.Tier) any {
+				return mkNewIn(keys[r.IntN(len(keys))], rg.RandExpr(r, r.Float64() < 0.2))
+			},
+			Enum: func(t core.Tier) []any {
+				var out []any
+				for _, e := range singles {
+					out = append(out, mkNewIn("team", e))
+				}
+				for _, k := range keys {
+					out = append(out, mkNewIn(k, rg.Expr{Op: "In", Values: []string{"v"}}))
+				}
+				return out
+			},
+			ExhaustiveNote: "all 8 operators x operand choices over the 9-value universe (subsets of size<=2 for In/NotIn; 7 numeric literals incl. MaxInt/MinInt for Gt/Lt/Gte/Lte)",
+			Impl:           implNew,
+			Rule:           "non-trivial = the requirement admits at least one probe value and rejects at least one",
+			Nontrivial: func(raw json.RawMessage, impl any) bool {
+				m, _ := impl.(map[string]any)
+				hs, _ := m["has"].([]any)
+				t, f := false, false
+				for _, h := range hs {
+					if b, _ := h.(bool); b {
+						t = true
+					} else {
+						f = true
+					}
+				}
+				return t && f
+			},
+			Labels: func(raw json.RawMessage, impl any) []string {
+				var in NewIn
+				json.Unmarshal(raw, &in)
+				return []string{"op:" + in.Op, fmt.Sprintf("nvalues=%d", len(in.Values))}
+			},
+			Signature: func(raw json.RawMessage, impl any) string {
+				var in NewIn
+				json.Unmarshal(raw, &in)
+				return "new:" + in.Op
+			},
+		},
+		{
+			Name: "c12.pair",
+			Doc:  "pairs of requirements (each an intersection of 1-3 constructor calls): Intersection both orders, HasIntersection both orders, Has over probes; spec = set semantics of Kubernetes operators",
+			N:    func(t core.Tier) int { return map[core.Tier]int{core.Quick: 3000, core.Thorough: 60000}[t] },
+			Gen:  genPair,
+			Enum: func(t core.Tier) []any {
+				// exhaustive small scope: all ordered pairs of single expressions (thorough), a fixed stride sample of them (quick)
+				var out []any
+				stride := 1
+				if t == core.Quick {
+					stride = 7
+				}
+				idx := 0
+				for _, a := range singles {
+					for _, b := range singles {
+						if idx%stride == 0 {
+							ea, eb := []rg.Expr{a}, []rg.Expr{b}
+							out = append(out, PairIn{Key: "team", A: ea, B: eb, Probes: rg.Probes(ea, eb)})
+						}
+						idx++
+					}
+				}
+				return out
+			},
+			ExhaustiveNote: "thorough: all ordered pairs of the small-scope single expressions (quick: every 7th pair)",
+			Impl:           implPair,
+			Rule:           "non-trivial = both operands admit at least one probe value",
+			Nontrivial: func(raw json.RawMessage, impl any) bool {
+				m, _ := impl.(map[string]any)
+				any1 := func(k string) bool {
+					hs, _ := m[k].([]any)
+					for _, h := range hs {
+						if b, _ := h.(bool); b {
+							return true
+						}
+					}
+					return false
+				}
+				return any1("hasA") && any1("hasB")
+			},
+			Labels: func(raw json.RawMessage, impl any) []string {
+				var in PairIn
+				json.Unmarshal(raw, &in)
+				l := append(rg.Features(in.A), rg.Features(in.B)...)
+				if m, ok := impl.(map[string]any); ok {
+					l = append(l, fmt.Sprintf("overlap=%v", m["overlapAB"]))
+				}
+				return l
+			},
+			Signature: func(raw json.RawMessage, impl any) string {
+				var in PairIn
+				json.Unmarshal(raw, &in)
+				return "pair:" + sig(in.A, in.B)
+			},
+			Shrink: func(raw json.RawMessage) []any {
+				var in PairIn
+				json.Unmarshal(raw, &in)
+				var out []any
+				for _, a := range core.ShrinkList(in.A) {
+					if len(a) > 0 {
+						out = append(out, PairIn{Key: in.Key, A: a, B: in.B, Probes: rg.Probes(a, in.B)})
+					}
+				}
+				for _, b := range core.ShrinkList(in.B) {
+					if len(b) > 0 {
+						out = append(out, PairIn{Key: in.Key, A: in.A, B: b, Probes: rg.Probes(in.A, b)})
+					}
+				}
+				return out
+			},
+		},
+		{
+			Name: "c12.compat",
+			Doc:  "Requirements.Compatible / Intersects on random requirement sets over custom, well-known, restricted and aliased keys, with and without AllowUndefinedWellKnownLabels",
+			N:    func(t core.Tier) int { return map[core.Tier]int{core.Quick: 4000, core.Thorough: 80000}[t] },
+			Gen:  genCompat,
+			Impl: implCompat,
+			Rule: "non-trivial = the two sets share at least one key, or B has a key undefined in A",
+			Nontrivial: func(raw json.RawMessage, impl any) bool {
+				var in CompatIn
+				json.Unmarshal(raw, &in)
+				return len(in.B) > 0
+			},
+			Labels: func(raw json.RawMessage, impl any) []string {
+				var in CompatIn
+				json.Unmarshal(raw, &in)
+				l := []string{fmt.Sprintf("|A|=%d", len(in.A)), fmt.Sprintf("|B|=%d", len(in.B)), fmt.Sprintf("allowWK=%v", in.AllowWellKnown)}
+				if m, ok := impl.(map[string]any); ok {
+					l = append(l, fmt.Sprintf("compatible=%v", m["compatible"]))
+				}
+				shared := false
+				for _, a := range in.A {
+					for _, b := range in.B {
+						if normKey(a.Key) == normKey(b.Key) {
+							shared = true
+						}
+					}
+				}
+				if shared {
+					l = append(l, "shared-key")
+				}
+				return l
+			},
+			Signature: func(raw json.RawMessage, impl any) string { return "compat" },
+			Shrink: func(raw json.RawMessage) []any {
+				var in CompatIn
+				json.Unmarshal(raw, &in)
+				var out []any
+				for _, a := range core.ShrinkList(in.A) {
+					out = append(out, CompatIn{A: a, B: in.B, AllowWellKnown: in.AllowWellKnown})
+				}
+				for _, b := range core.ShrinkList(in.B) {
+					out = append(out, CompatIn{A: in.A, B: b, AllowWellKnown: in.AllowWellKnown})
+				}
+				return out
+			},
+		},
+		{
+			Name: "c12.atoi",
+			Doc:  "the model's atoi against strconv.Atoi (value and error flag) on random and edge-case strings",
+			N:    func(t core.Tier) int { return map[core.Tier]int{core.Quick: 500, core.Thorough: 10000}[t] },
+			Gen:  genAtoi,
+			Impl: implAtoi,
+			Rule: "20 strings per case; non-trivial = always (each case mixes parsable, unparsable and out-of-range strings)",
+		},
+	}
+}
+
+func normKey(k string) string {
+	if n, ok := v1.NormalizedLabels[k]; ok {
+		return n
+	}
+	return k
+}
